@@ -421,11 +421,20 @@ pub fn generate_c15(run_seed: u64, thorough: bool, faults: bool) -> ListDesc {
     let mut g = Gen { r: &mut r, elem, dups: true, next_val: 0, pool: vec![] };
     let nslots = 3usize;
     // nested: a few inner lists, each starting with its identity tag
-    let mut inner_init = Vec::new();
+    let mut inner_init: Vec<Vec<MVal>> = Vec::new();
     let n_inner = if elem == ElemKind::Nested { 2 + g.r.below(3) as usize } else { 0 };
     // model ids of inner lists come after the outer lists created during the history, so
     // they are allocated first: ids 0..n_inner
+    // One history in three has *twins*: inner lists 2j and 2j+1 are different lists with the same
+    // tag and the same initial contents - equal by value, distinct by identity - so that two outer
+    // lists can be equal without sharing their elements, and stop being equal when one twin changes.
+    let twins = n_inner >= 2 && g.r.chance(1, 3);
     for k in 0..n_inner {
+        if twins && k % 2 == 1 {
+            let prev: Vec<MVal> = inner_init[k - 1].clone();
+            inner_init.push(prev);
+            continue;
+        }
         let mut v = vec![MVal::Int(INNER_TAG + k as u64)];
         for _ in 0..g.r.below(4) {
             g.next_val += 1;
@@ -480,9 +489,20 @@ pub fn generate_c15(run_seed: u64, thorough: bool, faults: bool) -> ListDesc {
                 1 => {
                     // a fresh list, or (one time in three) an element-wise copy of a list that exists:
                     // equal contents in a distinct list, so that `==` has something to say yes to
-                    let vals: Vec<MVal> = if !filled.is_empty() && g.r.chance(1, 3) {
+                    let vals: Vec<MVal> = if !filled.is_empty() && (g.r.chance(1, 3) || (twins && g.r.chance(1, 2))) {
                         let src = *g.r.pick(&filled);
-                        m.heap.lists[m.slots[src].unwrap()].clone()
+                        let mut c = m.heap.lists[m.slots[src].unwrap()].clone();
+                        if twins && g.r.chance(1, 2) {
+                            // ... made of the twins of its elements: equal, and sharing nothing
+                            for v in c.iter_mut() {
+                                if let MVal::Ref(r) = v {
+                                    if (*r ^ 1) < n_inner {
+                                        *r ^= 1;
+                                    }
+                                }
+                            }
+                        }
+                        c
                     } else {
                         let n = *g.r.pick(&[0usize, 1, 2, 3, 4, 5, 8, 9, 15, 16, 17, 31, 32, 33]);
                         (0..n).map(|_| fresh(&mut g)).collect()
@@ -528,7 +548,14 @@ pub fn generate_c15(run_seed: u64, thorough: bool, faults: bool) -> ListDesc {
                     if tot > 40 { Op::Len { h } } else { Op::Concat { a: h, b, dst: Some(any(&mut g)), plus: g.r.chance(1, 2) } }
                 }
                 9 => {
-                    let b = *g.r.pick(&filled);
+                    let mut b = *g.r.pick(&filled);
+                    if twins && g.r.chance(2, 3) {
+                        // prefer a different list that is equal to this one right now
+                        let eqs: Vec<usize> = filled.iter().copied().filter(|&s| m.slots[s] != m.slots[h] && m.heap.list_eq(m.slots[s].unwrap(), m.slots[h].unwrap())).collect();
+                        if !eqs.is_empty() {
+                            b = *g.r.pick(&eqs);
+                        }
+                    }
                     Op::Eq { a: h, b, ne: g.r.chance(1, 3) }
                 }
                 10 => Op::ToVec { h },
@@ -590,7 +617,7 @@ pub fn generate_c15(run_seed: u64, thorough: bool, faults: bool) -> ListDesc {
         };
         m.apply(&op);
         // plan the follow-up
-        if g.r.chance(1, 4) {
+        if g.r.chance(1, 4) || (twins && matches!(op, Op::Eq { .. }) && g.r.chance(1, 2)) {
             let target = match &op {
                 Op::Eq { a, b, .. } => Some(if g.r.chance(2, 3) { *b } else { *a }),
                 Op::Contains { h, .. } | Op::Index { h, .. } | Op::Get { h, .. } | Op::Len { h } | Op::ForFind { h, .. } => Some(*h),
@@ -620,7 +647,7 @@ pub fn generate_c15(run_seed: u64, thorough: bool, faults: bool) -> ListDesc {
                     // lists of lists: the change may also happen *inside* an element, through the
                     // inner list's own handle - the outer list itself does not change at all
                     let inner_refs: Vec<usize> = m.heap.lists[id].iter().filter_map(|v| if let MVal::Ref(r) = v { Some(*r) } else { None }).filter(|r| *r < n_inner).collect();
-                    let mutation = if elem == ElemKind::Nested && !inner_refs.is_empty() && g.r.chance(1, 2) {
+                    let mutation = if elem == ElemKind::Nested && !inner_refs.is_empty() && g.r.chance(if twins { 3 } else { 1 }, if twins { 4 } else { 2 }) {
                         g.next_val += 1;
                         Op::InnerPush { inner: *g.r.pick(&inner_refs), v: 100 + g.next_val }
                     } else if len >= 2 && g.r.chance(2, 3) {
@@ -787,6 +814,9 @@ where
                     }
                 }
                 inner.lists.push((k, l));
+                if let Some(MVal::Int(tag)) = v.first() {
+                    inner.tags.push((k, *tag));
+                }
                 heap0.new_list(v.clone());
             }
         }
@@ -1051,6 +1081,13 @@ fn expected_live(m: &SeqModel) -> (BTreeMap<u64, usize>, i64) {
     (objs, units)
 }
 
+fn ref_equiv(heap: &Heap, a: &MVal, b: &MVal) -> bool {
+    match (a, b) {
+        (MVal::Ref(x), MVal::Ref(y)) => heap.list_eq(*x, *y),
+        _ => a == b,
+    }
+}
+
 fn check_seq<E: Elem + std::fmt::Debug>(
     k: usize,
     op: &Op,
@@ -1099,6 +1136,10 @@ fn check_seq<E: Elem + std::fmt::Debug>(
                 None => false,
             }
         }
+        // histories with twins: a nested list read back is named by its tag and its contents, and
+        // two twins with equal contents are interchangeable
+        (_, Obs::Vals(a), Obs::Vals(b)) if E::KIND == ElemKind::Nested => a.len() == b.len() && a.iter().zip(b.iter()).all(|(x, y)| ref_equiv(&m.heap, x, y)),
+        (_, Obs::OptVal(Some(a)), Obs::OptVal(Some(b))) if E::KIND == ElemKind::Nested => ref_equiv(&m.heap, a, b),
         _ => exp == *obs,
     };
     if !ok {
